@@ -1181,6 +1181,18 @@ class Session:
             tdb = {int(t[1:].split(':')[0]) if t[0] in 'MN' else int(t.rsplit(':', 1)[1]) for t in cross}
             if tdb != {2}:
                 continue                          # (touching d0 here would pair a second d0 connection)
+            recs2 = self._all_records(self.storages[2])
+            clean = True
+            for t in cross:                       # ... and the targets themselves must not lead out of d2
+                toid = bytes.fromhex((t[1:].split(':')[1] if t[0] in 'MN' else t[1:].split(':')[0])[1:])
+                try:
+                    c2_, a2_, s2_, _ = decode_record(recs2[toid])
+                    if any(u[0] in 'MN' or (u[0] == 'W' and ':' in u) for u in tree_leaves((a2_ or []) + s2_)):
+                        clean = False
+                except Exception:
+                    clean = False
+            if not clean:
+                continue
             tm = transaction.TransactionManager()
             c = dbs[1].open(transaction_manager=tm)
             try:
